@@ -323,3 +323,36 @@ Proof.
   unfold astep at 1. cbn. eexists. split; [reflexivity|]. split; reflexivity.
 Qed.
 
+(** ---- History of a repaired defect (C12): a handshake without a deadline ----
+
+    newEncryptedConnection dials, writes the 256-byte handshake and reads the
+    server's answer.  Before "fix: bound the ADNL handshake of a connection attempt"
+    that read had no deadline and ignored the context: a server that accepts the
+    TCP connection and stays silent (or sends a few bytes of the answer) kept
+    NewConnection blocked whatever its ctx, and kept reconnect() inside ONE attempt
+    for ever - status Connecting, every call "not connected yet", although new
+    connections would have been served.  Model of one attempt against such a
+    server: seconds spent in the handshake read. *)
+Inductive hlabel := HTick | HGiveUp.   (* a second passes / the read fails: close, sleep 1 s, next attempt *)
+
+Section Handshake.
+  Variable deadline : option nat.   (* None: the read blocks until the server does something *)
+
+  Definition hstep (waited : nat) (l : hlabel) : option nat :=
+    match l with
+    | HTick => Some (S waited)
+    | HGiveUp => match deadline with
+                 | Some d => if Nat.leb d waited then Some 0 else None
+                 | None => None
+                 end
+    end.
+End Handshake.
+
+Theorem handshake_without_deadline_refuted :
+  forall waited, hstep None waited HGiveUp = None.
+Proof. reflexivity. Qed.
+
+Theorem handshake_deadline_ends_attempt :
+  forall d waited, d <= waited -> hstep (Some d) waited HGiveUp = Some 0.
+Proof. intros d waited H. unfold hstep. apply Nat.leb_le in H. rewrite H. reflexivity. Qed.
+
